@@ -388,9 +388,57 @@ pub fn gen_byte_case(seed: u64, label: &str, index: u64, default_config_only: bo
             v.extend_from_slice(&t2.as_bytes()[cut2..]);
             (v, "splice".into())
         }
+        15 if r.chance(1, 30) => {
+            // long text / CDATA nodes: multi-byte characters straddling power-of-two offsets, and (half of
+            // them) an invalid byte at a late offset
+            let b = *r.pick(&[64usize, 128, 256, 512, 1024, 2048, 4096, 8192]);
+            let k = r.range(0, 4);
+            let ch = *r.pick(&["é", "€", "😀", "x"]);
+            let mut body: Vec<u8> = "y".repeat(b.saturating_sub(k)).into_bytes();
+            body.extend_from_slice(ch.as_bytes());
+            body.extend_from_slice(b"tail");
+            if r.chance(1, 2) {
+                let at = r.range(body.len() / 2, body.len());
+                body.insert(at, *r.pick(&[0xFFu8, 0xC3, 0xE2]));
+            }
+            let cdata = r.chance(1, 3);
+            let mut v: Vec<u8> = b"<r><t>first</t><t>".to_vec();
+            if cdata {
+                v.extend_from_slice(b"<![CDATA[");
+            }
+            v.extend_from_slice(&body);
+            if cdata {
+                v.extend_from_slice(b"]]>");
+            }
+            v.extend_from_slice(b"</t></r>");
+            (v, "long-text".into())
+        }
+        14 if default_config_only => {
+            // no depth bound in C08: deep ladders run on the shard thread's 64 MiB stack
+            let d = *r.pick(&[50usize, 127, 128, 129, 130, 200, 255, 256, 257, 258, 300, 600]);
+            if r.chance(19, 20) {
+                (gen::mutate_bytes(text.as_bytes(), &mut r), "byte-mutation".into())
+            } else {
+                let names: &[&str] = if r.chance(1, 2) { &["a"] } else { &["a", "b", "c:d"] };
+                let mut v = gen::ladder(names, d, &mut r, true);
+                if r.chance(1, 2) {
+                    // put content at the bottom: text or an element, so that the deepest level is not empty
+                    let mid = v.len() / 2;
+                    let ins: &[u8] = if r.chance(1, 2) { b"<leaf>x</leaf>" } else { b"text" };
+                    // find the boundary between the last start tag and the first end tag
+                    if let Some(p) = v.windows(2).position(|w| w == b"</") {
+                        for (k, b) in ins.iter().enumerate() {
+                            v.insert(p + k, *b);
+                        }
+                    }
+                    let _ = mid;
+                }
+                (v, format!("deep-ladder-{}", d))
+            }
+        }
         14 if r.chance(19, 20) => (gen::mutate_bytes(text.as_bytes(), &mut r), "byte-mutation".into()),
         14 => {
-            let d = *r.pick(&[5usize, 20, 50, 100, 150, 200]);
+            let d = *r.pick(&[5usize, 20, 50, 100, 127, 128, 129, 130, 150, 200]);
             let close = r.chance(3, 4);
             let names: &[&str] = if r.chance(1, 2) { &["a"] } else { &["a", "b", "c:d", "self", "a-b"] };
             (gen::ladder(names, d, &mut r, close), format!("ladder-{}", d))
@@ -419,8 +467,13 @@ pub fn gen_byte_case(seed: u64, label: &str, index: u64, default_config_only: bo
         _ => (text.as_bytes().to_vec(), "valid".into()),
     };
     let base_hex = if r.chance(1, 3) {
-        let (_, t) = valid_doc(&mut r);
-        Some(hex(t.as_bytes()))
+        if r.chance(1, 2) {
+            // the undamaged original: the hostile bytes then hit elements that already carry state
+            Some(hex(text.as_bytes()))
+        } else {
+            let (_, t) = valid_doc(&mut r);
+            Some(hex(t.as_bytes()))
+        }
     } else {
         None
     };
